@@ -28,6 +28,8 @@ from pytoniq_core.crypto import ciphers as lc
 from pytoniq_core.crypto import keys as lk
 from pytoniq_core.crypto.signature import verify_sign, sign_message
 
+ED25519_L = 2 ** 252 + 27742317777372353535851937790883648493
+
 ID_MAGIC = b'\xc6\xb4\x13\x48'
 
 
@@ -450,8 +452,32 @@ class AdnlWorld(HistoryWorld):
             if ok and r:
                 self.V(ctx, 'forgery-accepted', route, 'signature-length', 'verify_sign accepted a %d byte signature' % len(cut))
                 return
+        # a relay that re-frames signature || message at another boundary: both parts are altered although their
+        # concatenation is not
+        n_re = 0
+        for k in sorted({1, 2, 3, 32, 63, 64, 1 + ar.randrange(63)}):
+            cands = [('shortened', sig[:64 - k], sig[64 - k:] + msg)]
+            if len(msg) >= k:
+                cands.append(('lengthened', sig + msg[:k], msg[k:]))
+            for kind, s2, m2 in cands:
+                ok, r = call(verify_sign, pub, m2, s2)
+                n_re += 1
+                if ok and r:
+                    self.V(ctx, 'forgery-accepted', route, 'reframed-' + kind, 'verify_sign accepted a %d byte signature for another message (signature||message re-split %d bytes %s)'
+                           % (len(s2), k, 'earlier' if kind == 'shortened' else 'later'))
+                    return
+        ctx.fault('reframed-signature-and-message', n_re)
+        # the non-canonical twin (R, S + L) of the signature is an altered signature too
+        s_int = int.from_bytes(sig[32:], 'little') + ED25519_L
+        if s_int < 2 ** 256:
+            ok, r = call(verify_sign, pub, msg, sig[:32] + s_int.to_bytes(32, 'little'))
+            n_re += 1
+            ctx.fault('non-canonical-S')
+            if ok and r:
+                self.V(ctx, 'forgery-accepted', route, 'signature-S-plus-L', 'verify_sign accepted the non-canonical twin (R, S+L) of the signature')
+                return
         ctx.fault('altered-signature', 515)
-        ctx.evaluated(n_eval + 515)
+        ctx.evaluated(n_eval + 515 + n_re)
 
     # ---- mnemonics ----
     def op_new(self, st, op, ctx):
